@@ -5,6 +5,7 @@ package pbatch
 import (
 	"encoding/json"
 	"fmt"
+	"os"
 	"regexp"
 	"strings"
 	"time"
@@ -127,7 +128,8 @@ func Run(cases []*Case, fast bool) ([]*Out, error) {
 		return nil, &HarnessError{"driver build failed:\n" + be.Output}
 	}
 	stdin, _ := json.Marshal(jobs)
-	rr := forge.Run(bin, stdin, 10*time.Minute)
+	rr := forge.Run(bin, stdin, 20*time.Minute, "GOMAXPROCS=2")
+	noteSlow(rr.Stderr)
 	if rr.Err != nil {
 		return nil, &HarnessError{fmt.Sprintf("driver run failed: %v\nstderr: %s", rr.Err, tail(string(rr.Stderr), 2000))}
 	}
@@ -149,7 +151,8 @@ func Run(cases []*Case, fast bool) ([]*Out, error) {
 	// reasons (too many spinning goroutines in the driver) are run now, package by package.
 	single := func(name string, w []int, lim int) (pgo.Result, error) {
 		stdin, _ := json.Marshal(map[string]job{name: {Inputs: [][]int{w}, Limits: []int{lim}}})
-		rr := forge.Run(bin, stdin, 3*time.Minute)
+		rr := forge.Run(bin, stdin, 20*time.Minute, "GOMAXPROCS=2", "VERIF_GUARD_CPU=120")
+		noteSlow(rr.Stderr)
 		var r1 map[string][]pgo.Result
 		if rr.Err != nil || json.Unmarshal(rr.Stdout, &r1) != nil || len(r1[name]) != 1 {
 			return pgo.Result{}, fmt.Errorf("re-run of a guarded-out parse failed: %v", rr.Err)
@@ -203,7 +206,8 @@ func Run(cases []*Case, fast bool) ([]*Out, error) {
 				break
 			}
 			stdin, _ := json.Marshal(map[string]job{p.Name: {Inputs: in, Limits: lim}})
-			rr := forge.Run(bin, stdin, 10*time.Minute)
+			rr := forge.Run(bin, stdin, 20*time.Minute, "GOMAXPROCS=2")
+			noteSlow(rr.Stderr)
 			var r2 map[string][]pgo.Result
 			if rr.Err != nil || json.Unmarshal(rr.Stdout, &r2) != nil || len(r2[p.Name]) != len(idx) {
 				return nil, &HarnessError{fmt.Sprintf("re-run of skipped inputs failed: %v", rr.Err)}
@@ -226,4 +230,19 @@ func tail(s string, n int) string {
 		return s[len(s)-n:]
 	}
 	return s
+}
+
+// SlowParses collects the driver's SLOW-PARSE lines (parses that needed more than a second of
+// CPU time); checks may put them into their evidence.
+var SlowParses []string
+
+func noteSlow(stderr []byte) {
+	for _, l := range strings.Split(string(stderr), "\n") {
+		if strings.HasPrefix(l, "SLOW-PARSE") && len(SlowParses) < 20 {
+			SlowParses = append(SlowParses, l)
+			if os.Getenv("VERIF_VERBOSE") != "" {
+				fmt.Fprintln(os.Stderr, l)
+			}
+		}
+	}
 }
